@@ -3,6 +3,7 @@
 package router
 
 import (
+	"encoding/hex"
 	"encoding/json"
 	"net/http"
 	"net/http/httptest"
@@ -15,23 +16,31 @@ import (
 	"github.com/gotid/god/internal/verifdrv"
 )
 
-type verifReg struct {
-	M string `json:"m"`
-	P string `json:"p"`
+// verifOp is one step of a router history: a registration (Handle) or a request (ServeHTTP).
+// A request either sets r.URL.Path = P directly or, when Raw is set, is built from the raw
+// request target by net/http (httptest.NewRequest), so that URL.Path is what the server would see.
+type verifOp struct {
+	Op  string `json:"op"` // reg | req
+	M   string `json:"m"`
+	P   string `json:"p"`
+	Raw string `json:"raw"`
 }
 
 type verifCase struct {
-	Kind string     `json:"kind"`
-	NF   bool       `json:"nf"` // install a custom not-found handler
-	Regs []verifReg `json:"regs"`
-	Reqs []verifReg `json:"reqs"`
+	Kind string    `json:"kind"`
+	NF   bool      `json:"nf"` // install a custom not-found handler
+	Ops  []verifOp `json:"ops"`
 }
 
 type verifRes struct {
-	Clean  string      `json:"clean"`
+	Op     string      `json:"op"`
+	Err    string      `json:"err"`    // reg: error class
+	Clean  string      `json:"clean"`  // hex of path.Clean(registered path | URL.Path)
+	Path   string      `json:"path"`   // req: hex of r.URL.Path as served
+	BadReq bool        `json:"badreq"` // req: net/http refused the raw target (nothing served)
 	Status int         `json:"status"`
 	Hids   []int       `json:"hids"`
-	Vars   [][2]string `json:"vars"`
+	Vars   [][2]string `json:"vars"` // name, hex(value)
 	Allow  []string    `json:"allow"`
 	NF     int         `json:"nf"`
 }
@@ -55,8 +64,10 @@ func verifErr(err error) string {
 	}
 }
 
-// TestVerifDriver registers the route table of every case on a fresh NewRouter() (handler i records
-// its index and pathvar.Vars), fires the requests and reports what the router did.
+func verifHex(s string) string { return hex.EncodeToString([]byte(s)) }
+
+// TestVerifDriver runs every history on a fresh NewRouter(): handler i (i = index of its reg op)
+// records its index and pathvar.Vars; registrations and requests are executed in the given order.
 func TestVerifDriver(t *testing.T) {
 	verifdrv.Run(t, func(raw json.RawMessage) any {
 		var c verifCase
@@ -73,33 +84,42 @@ func TestVerifDriver(t *testing.T) {
 				w.WriteHeader(http.StatusNotFound)
 			}))
 		}
-		errs := make([]string, len(c.Regs))
-		rclean := make([]string, len(c.Regs))
-		for i, reg := range c.Regs {
-			id := i
-			errs[i] = verifErr(rt.Handle(reg.M, reg.P, http.HandlerFunc(func(w http.ResponseWriter, r *http.Request) {
-				hids = append(hids, id)
-				vars = pathvar.Vars(r)
-			})))
-			rclean[i] = path.Clean(reg.P)
-		}
-		res := make([]verifRes, len(c.Reqs))
-		for i, rq := range c.Reqs {
-			hids, vars, nf = nil, nil, 0
-			r := httptest.NewRequest(http.MethodGet, "/", nil)
-			r.Method = rq.M
-			r.URL.Path = rq.P
-			rec := httptest.NewRecorder()
-			status := rec.Code
-			if panicked, _ := verifdrv.Catch(func() { rt.ServeHTTP(rec, r) }); panicked {
-				status = 0 // ServeHTTP panicked
-			} else {
-				status = rec.Code
+		res := make([]verifRes, len(c.Ops))
+		for i, op := range c.Ops {
+			o := verifRes{Op: op.Op, Hids: []int{}, Vars: [][2]string{}, Allow: []string{}}
+			if op.Op == "reg" {
+				id := i
+				o.Err = verifErr(rt.Handle(op.M, op.P, http.HandlerFunc(func(w http.ResponseWriter, r *http.Request) {
+					hids = append(hids, id)
+					vars = pathvar.Vars(r)
+				})))
+				o.Clean = verifHex(path.Clean(op.P))
+				res[i] = o
+				continue
 			}
-			o := verifRes{Clean: path.Clean(rq.P), Status: status, Hids: append([]int{}, hids...), NF: nf,
-				Vars: [][2]string{}, Allow: []string{}}
+			hids, vars, nf = nil, nil, 0
+			var r *http.Request
+			if op.Raw != "" {
+				if bad, _ := verifdrv.Catch(func() { r = httptest.NewRequest(http.MethodGet, op.Raw, nil) }); bad || r == nil {
+					o.BadReq = true
+					res[i] = o
+					continue
+				}
+			} else {
+				r = httptest.NewRequest(http.MethodGet, "/", nil)
+				r.URL.Path = op.P
+			}
+			r.Method = op.M
+			o.Path = verifHex(r.URL.Path)
+			o.Clean = verifHex(path.Clean(r.URL.Path))
+			rec := httptest.NewRecorder()
+			if panicked, _ := verifdrv.Catch(func() { rt.ServeHTTP(rec, r) }); !panicked {
+				o.Status = rec.Code
+			}
+			o.Hids = append(o.Hids, hids...)
+			o.NF = nf
 			for k, v := range vars {
-				o.Vars = append(o.Vars, [2]string{k, v})
+				o.Vars = append(o.Vars, [2]string{k, verifHex(v)})
 			}
 			sort.Slice(o.Vars, func(a, b int) bool { return o.Vars[a][0] < o.Vars[b][0] })
 			for _, h := range rec.Header().Values(allowHeader) {
@@ -108,6 +128,6 @@ func TestVerifDriver(t *testing.T) {
 			sort.Strings(o.Allow)
 			res[i] = o
 		}
-		return map[string]any{"errs": errs, "rclean": rclean, "res": res}
+		return map[string]any{"res": res}
 	})
 }
